@@ -1,12 +1,143 @@
-import SmVerif.Lemmas.MinHashInv
+/-
+C03 — downsampling equals sketching at the coarser resolution, for every scaled value.
+
+Two groups of statements.
+
+(A) content: downsampling keeps exactly the hashes at or below the new threshold
+    with their counts, hence equals the sketch built directly at the coarser
+    value from the same additions; it composes; upsampling is refused.
+(B) numbers: for every scaled value `1 ≤ S ≤ 2^31` each of the conversion
+    pipelines that exist in the code reports `S` back / reproduces the same
+    threshold.  The arithmetic is the exact binary64 model (`Float64.lean`);
+    which rounding each function uses comes from the translator (`Sm.Gen`).
+    Above `2^31.5` the stored threshold no longer determines `S`
+    (`large_scaled_counterexample`, known finding D22).
+
+**finding**: `downsample_count` is false as first stated: the model's `maxHash` is an
+unbounded `Nat`, and for a threshold far above the `u64` range (e.g. `2^66`) `scaled()`
+rounds to 0, which `downsample_scaled` reads as "not a scaled sketch" and returns the
+input unchanged (`downsample_count_counterexample`).  It is proved with the extra hypothesis
+`s.maxHash < 2^64` (`downsample_count_partial`); `downsample_eq_direct` and
+`downsample_compose` are true as stated (thresholds produced by `mhR` are always `u64`).
+-/
+import SmVerif.Lemmas.Scaled
+
 namespace Sm.C03
+
 open Sm MH
+
+/-! ### (A) content -/
+
+/- FULL STATEMENT (not proved / false):
+     theorem downsample_count {s r : MH} (hs : Inv s) (hn : s.num = 0) (hM : s.maxHash ≠ 0) (sc : Nat)
+         (hlt : s.scaled < sc) (hne : mhR sc ≠ 0) (hr : s.downsampleScaled sc = .ok r) (x : Nat) :
+         r.maxHash = mhR sc ∧ r.trackAbundance = s.trackAbundance ∧
+         count r x = if x ≤ mhR sc then count s x else 0
+   Counterexample (`downsample_count_counterexample`): the model's `maxHash` is an unbounded `Nat`
+   and nothing above says it is a `u64`.  For `maxHash = 2^66`, `scaled()` computes
+   `round(2^64 / 2^66) = 0`; `downsample_scaled` reads 0 as "not a scaled sketch" and returns the
+   sketch unchanged, so `r.maxHash = 2^66 ≠ mhR 2`.
+   Minimal correction: the hypothesis `hU : s.maxHash < 2 ^ 64` (the field is a `u64` in the
+   code).  It is only used to get `s.scaled ≠ 0` (`scaled_ne_zero`, proved for every non-zero
+   `u64` threshold from the rounding-error bounds). -/
+theorem downsample_count_partial {s r : MH} (hs : Inv s) (hn : s.num = 0) (hM : s.maxHash ≠ 0)
+    (hU : s.maxHash < 2 ^ 64) (sc : Nat)
+    (hlt : s.scaled < sc) (hne : mhR sc ≠ 0) (hr : s.downsampleScaled sc = .ok r) (x : Nat) :
+    r.maxHash = mhR sc ∧ r.trackAbundance = s.trackAbundance ∧
+    count r x = if x ≤ mhR sc then count s x else 0 :=
+  Sm.downsample_count' hs hn hM hU sc hlt hne hr x
+
+/-- `scaled()` never reports 0 for a non-zero `u64` threshold -/
+theorem scaled_ne_zero {s : MH} (hM : s.maxHash ≠ 0) (hU : s.maxHash < 2 ^ 64) : s.scaled ≠ 0 :=
+  Sm.scaled_ne_zero hM hU
+
+theorem downsample_count_counterexample :
+    let s : MH := { num := 0, maxHash := 2 ^ 66, ksize := 21, seed := 42, hf := 1,
+                    mins := [], abunds := none, md5 := none }
+    Inv s ∧ s.num = 0 ∧ s.maxHash ≠ 0 ∧ s.scaled < 2 ∧ mhR 2 ≠ 0 ∧
+    s.downsampleScaled 2 = .ok s ∧ s.maxHash ≠ mhR 2 := by
+  intro s
+  refine ⟨⟨?_, ?_, ?_, ?_, ?_⟩, ?_⟩
+  · simp [s, Sorted]
+  · intro ab h; cases h
+  · intro ab h; cases h
+  · intro _ x hx; cases hx
+  · intro h; exact absurd rfl h
+  · decide +kernel
+
+/-- downsampling a sketch of some additions equals sketching the same additions
+directly at the coarser value -/
+theorem downsample_eq_direct (k hf seed : Nat) (tr : Bool) (S1 S2 : Nat) (ps : List (Nat × Nat))
+    (hpos : ∀ p ∈ ps, 0 < p.2) (h1 : mhR S1 ≠ 0) (h2 : mhR S2 ≠ 0) (hle : mhR S2 ≤ mhR S1)
+    (hlt : scR (mhR S1) < S2) {r : MH}
+    (hr : ((MH.new S1 k hf seed tr 0).addManyAb ps).downsampleScaled S2 = .ok r) :
+    r.mins = ((MH.new S2 k hf seed tr 0).addManyAb ps).mins ∧
+    r.abunds = ((MH.new S2 k hf seed tr 0).addManyAb ps).abunds ∧
+    r.maxHash = mhR S2 :=
+  Sm.downsample_eq_direct' k hf seed tr S1 S2 ps hpos h1 h2 hle hlt hr
+
+/-- downsampling composes -/
+theorem downsample_compose {s r1 r2 r3 : MH} (hs : Inv s) (hn : s.num = 0) (hM : s.maxHash ≠ 0)
+    (S2 S3 : Nat) (h12 : s.scaled < S2) (h23 : r1.scaled < S3) (h13 : s.scaled < S3)
+    (hne2 : mhR S2 ≠ 0) (hne3 : mhR S3 ≠ 0) (hle : mhR S3 ≤ mhR S2)
+    (hr1 : s.downsampleScaled S2 = .ok r1) (hr2 : r1.downsampleScaled S3 = .ok r2)
+    (hr3 : s.downsampleScaled S3 = .ok r3) :
+    r2.mins = r3.mins ∧ r2.abunds = r3.abunds ∧ r2.maxHash = r3.maxHash :=
+  Sm.downsample_compose' hs hn hM S2 S3 h12 h23 h13 hne2 hne3 hle hr1 hr2 hr3
+
+/-- requests to increase resolution are refused (Rust) -/
 theorem upsample_refused (s : MH) (sc : Nat) (h0 : s.scaled ≠ 0) (h : sc < s.scaled) :
     s.downsampleScaled sc = .error .upsample := by
   unfold MH.downsampleScaled
   have h1 : ¬ (s.scaled = sc ∨ s.scaled = 0) := by omega
   simp [h1, h]
+
+/-- ... and by the Python layer -/
 theorem py_upsample_refused (s : MH) (sc : Nat) (hn : s.num = 0) (h : sc < Py.scaledProp s) :
     Py.downsample s none (some sc) = .error .pyValue := by
   simp [Py.downsample, Py.downsampleParams, hn, h]
+
+/-- a num sketch downsampled to a smaller num is the first `n` entries (content part:
+    see `C01.num_add_take`); a larger num is refused -/
+theorem py_num_upsample_refused (s : MH) (n : Nat) (hs : Py.scaledProp s = 0) (h : s.num < n) :
+    Py.downsample s (some n) none = .error .pyValue := by
+  simp [Py.downsample, Py.downsampleParams, hs, h]
+
+/-! ### (B) every scaled value `1 ≤ S ≤ 2^31` survives every conversion pipeline -/
+
+/-- thresholds are antitone in `scaled` -/
+theorem mh_antitone {S1 S2 : Nat} (h1 : 1 ≤ S1) (h : S1 ≤ S2) (h2 : S2 ≤ 2 ^ 32) : mhR S2 ≤ mhR S1 :=
+  Sm.mhR_antitone h1 h h2
+
+theorem mh_pos {S : Nat} (h1 : 1 ≤ S) (h2 : S ≤ 2 ^ 32) : mhR S ≠ 0 :=
+  Sm.mhR_pos h1 h2
+
+/-- P2: a sketch created with scaled `S` reports `S` through the Python property -/
+theorem py_reports_S {S : Nat} (h1 : 1 ≤ S) (h2 : S ≤ 2 ^ 31) : scP (mhR S) = S :=
+  Sm.scP_mhR h1 h2
+
+/-- P3: ... and through the Rust accessor used by every implicit downsampling path
+(`count_common/similarity(downsample)`, `downsample_scaled`, selection, BTree conversion) -/
+theorem rust_reports_S {S : Nat} (h1 : 1 ≤ S) (h2 : S ≤ 2 ^ 31) : scR (mhR S) = S :=
+  Sm.scR_mhR h1 h2
+
+/-- P4: copy / pickle / flatten / to_mutable rebuild the same threshold -/
+theorem py_copy_stable {S : Nat} (h1 : 1 ≤ S) (h2 : S ≤ 2 ^ 31) : mhR (scP (mhR S)) = mhR S := by
+  rw [py_reports_S h1 h2]
+
+/-- P5: Python `downsample(scaled=S)` lands on the threshold of a sketch created at `S` -/
+theorem py_downsample_exact {S : Nat} (h1 : 1 ≤ S) (h2 : S ≤ 2 ^ 31) : mhR (scP (mhP S)) = mhR S := by
+  rw [Sm.scP_mhP h1 h2]
+
+/-- P6: BTree -> Vec conversion (`KmerMinHash::new(other.scaled(), ..)`) keeps the threshold -/
+theorem btree_conv_stable {S : Nat} (h1 : 1 ≤ S) (h2 : S ≤ 2 ^ 31) : mhR (scR (mhR S)) = mhR S := by
+  rw [rust_reports_S h1 h2]
+
+/-- **D22 (known finding).** Above 2^31.5 the threshold no longer determines `S`. -/
+theorem large_scaled_counterexample : scP (mhR 3039077545) = 3039077546 := by
+  decide +kernel
+
+/-! non-vacuity / spot checks evaluated by the kernel -/
+example : mhR 93 = 198352086814081216 ∧ scP (mhR 93) = 93 ∧ scR (mhR 93) = 93 := by decide +kernel
+
 end Sm.C03
